@@ -17,6 +17,7 @@
 #include <symengine/real_double.h>
 #include <symengine/complex_double.h>
 #include <symengine/visitor.h>
+#include <symengine/mp_class.h>
 #include <cmath>
 
 using namespace SymEngine;
@@ -385,8 +386,53 @@ typedef RCP<const Basic> (*fn1)(const RCP<const Basic> &);
 typedef RCP<const Basic> (*fn2)(const RCP<const Basic> &, const RCP<const Basic> &);
 
 // every class with an entry in init_str_printer_names() that the parser knows under the printed name
-static RCP<const Basic> rand_known_function(Rng &r, const RCP<const Basic> &a, const RCP<const Basic> &b)
+// ---- work bounds: the generator must never start a big-number computation -------------------------------------
+// bits of an exact number (numerator + denominator; real + imaginary part), 64 for floats
+static unsigned long num_bits(const Basic &n)
 {
+    if (is_a<Integer>(n))
+        return mpz_sizeinbase(get_mpz_t(down_cast<const Integer &>(n).as_integer_class()), 2);
+    if (is_a<Rational>(n)) {
+        const rational_class &q = down_cast<const Rational &>(n).as_rational_class();
+        return mpz_sizeinbase(get_mpz_t(get_num(q)), 2) + mpz_sizeinbase(get_mpz_t(get_den(q)), 2);
+    }
+    if (is_a<Complex>(n)) {
+        const Complex &c = down_cast<const Complex &>(n);
+        return num_bits(*c.real_part()) + num_bits(*c.imaginary_part());
+    }
+    return 64;
+}
+// Number ** Number costs about bits(base) * |exponent| bits of result: refuse above ~10^6 (also any non-word exponent)
+static RCP<const Basic> safe_pow(const RCP<const Basic> &b, const RCP<const Basic> &e)
+{
+    if (is_a_Number(*b) && is_a_Number(*e)) {
+        unsigned long eb = num_bits(*e);
+        if (is_a<Integer>(*e) || is_a<Rational>(*e) || is_a<Complex>(*e)) {
+            if (eb > 40)
+                throw std::runtime_error("gen: exponent too large for a numeric base");
+            double mag = std::ldexp(1.0, (int)std::min<unsigned long>(eb, 40));
+            if ((double)num_bits(*b) * mag > 1e6)
+                throw std::runtime_error("gen: power too large");
+        }
+    }
+    return pow(b, e);
+}
+// a function of a *number* is evaluated by its constructor (gamma(10**20) = factorial, primepi, primorial, zeta,
+// polygamma, beta ... of a big integer never finish): numeric arguments stay small, anything else becomes symbolic
+static RCP<const Basic> tame_arg(const RCP<const Basic> &a, int k)
+{
+    if (!is_a_Number(*a))
+        return a;
+    if (is_a<Integer>(*a) && num_bits(*a) <= 5)
+        return a;
+    if (is_a<Rational>(*a) && num_bits(*a) <= 10)
+        return a;
+    return add(a, X(k)); // f(number + symbol) is not evaluated
+}
+
+static RCP<const Basic> rand_known_function(Rng &r, const RCP<const Basic> &a0, const RCP<const Basic> &b0)
+{
+    RCP<const Basic> a = tame_arg(a0, 0), b = tame_arg(b0, 1);
     static const fn1 one[] = {sin,   cos,   tan,   cot,   csc,   sec,   asin,     acos,     asec,  acsc,
                               atan,  acot,  sinh,  csch,  cosh,  sech,  tanh,     coth,     asinh, acsch,
                               acosh, atanh, acoth, asech, (fn1)log, lambertw, dirichlet_eta, floor, ceiling, erf,
@@ -500,16 +546,16 @@ void hx_gen(Rng &r, const std::string &tier)
                     put("str", add(n, x), "number-coef");
                     break;
                 case 2:
-                    put("str", pow(n, x), "number-base");
+                    put("str", safe_pow(n, x), "number-base");
                     break;
                 case 3:
-                    put("str", pow(x, n), "number-exp");
+                    put("str", safe_pow(x, n), "number-exp");
                     break;
                 case 4:
                     put("str", add(mul(n, x), y), "number-coef");
                     break;
                 case 5:
-                    put("str", add(y, mul(n, pow(x, integer(2)))), "number-coef");
+                    put("str", add(y, mul(n, safe_pow(x, integer(2)))), "number-coef");
                     break;
                 case 6:
                     put("str", div(mul(n, x), y), "number-coef");
@@ -548,7 +594,7 @@ void hx_gen(Rng &r, const std::string &tier)
                             put("str", add(mul(n, x), y), "integer-boundary");
                             break;
                         case 1:
-                            put("str", pow(x, n), "integer-boundary");
+                            put("str", safe_pow(x, n), "integer-boundary");
                             break;
                         case 2:
                             put("str", Rational::from_two_ints(*n, *integer(7)), "integer-boundary");
@@ -558,7 +604,7 @@ void hx_gen(Rng &r, const std::string &tier)
                             put("str", function_symbol("f", vec_basic{n, add(n, x)}), "integer-boundary");
                             break;
                         case 4:
-                            put("str", pow(n, div(x, integer(3))), "integer-boundary");
+                            put("str", safe_pow(n, div(x, integer(3))), "integer-boundary");
                             break;
                         default:
                             put("str", add(n, mul(Complex::from_two_nums(*n, *integer(1)), z)), "integer-boundary");
@@ -599,13 +645,13 @@ void hx_gen(Rng &r, const std::string &tier)
                                            : rand_arith(r, 1, false);
             if (is_a<Integer>(*e2) && (!mp_fits_slong_p(down_cast<const Integer &>(*e2).as_integer_class())
                                        || std::labs(down_cast<const Integer &>(*e2).as_int()) > 150))
-                continue; // pow(number, huge integer) does not terminate in reasonable time
-            RCP<const Basic> p = pow(b, e2);
+                continue; // safe_pow(number, huge integer) does not terminate in reasonable time
+            RCP<const Basic> p = safe_pow(b, e2);
             if (!finite_doubles_only(*p) || has_type(*p, SYMENGINE_NOT_A_NUMBER) || has_type(*p, SYMENGINE_INFTY))
                 continue;
             put("str", p, "pow");
-            put("str", pow(p, X((int)r.below(3))), "pow-nested");
-            put("str", pow(X((int)r.below(3)), p), "pow-nested");
+            put("str", safe_pow(p, X((int)r.below(3))), "pow-nested");
+            put("str", safe_pow(X((int)r.below(3)), p), "pow-nested");
             put("str", div(X(3), p), "pow-den");
             put("str", mul(integer(-1), p), "pow-neg");
             put("str", sub(x, p), "pow-neg");
@@ -639,7 +685,7 @@ void hx_gen(Rng &r, const std::string &tier)
                     default:
                         ex = integer(r.range(1, 3));
                 }
-                fs.push_back(pow(b, ex));
+                fs.push_back(safe_pow(b, ex));
             }
             if (r.coin())
                 fs.push_back(rand_number(r, false, false));
@@ -661,7 +707,7 @@ void hx_gen(Rng &r, const std::string &tier)
             if (has_type(*f, SYMENGINE_NOT_A_NUMBER) || has_type(*f, SYMENGINE_INFTY))
                 continue;
             put("str", f, "function");
-            put("str", add(mul(integer(r.range(-3, 3)), f), pow(f, integer(-2))), "function");
+            put("str", add(mul(integer(r.range(-3, 3)), f), safe_pow(f, integer(-2))), "function");
         } catch (const std::exception &) {
         }
     }
@@ -678,7 +724,7 @@ void hx_gen(Rng &r, const std::string &tier)
     for (const char *nm : names) {
         RCP<const Basic> s = symbol(nm);
         put("str", s, "symbol-name");
-        put("str", add(mul(integer(-2), pow(s, integer(2))), function_symbol(std::string("F") + nm, s)), "symbol-name");
+        put("str", add(mul(integer(-2), safe_pow(s, integer(2))), function_symbol(std::string("F") + nm, s)), "symbol-name");
     }
     // --- constants and infinities (positive and unsigned)
     for (auto c : {rcp_static_cast<const Basic>(pi), rcp_static_cast<const Basic>(E),
@@ -689,8 +735,8 @@ void hx_gen(Rng &r, const std::string &tier)
         put("str", c, "constant");
         try {
             put("str", add(c, x), "constant");
-            put("str", pow(x, c), "constant");
-            put("str", pow(c, x), "constant");
+            put("str", safe_pow(x, c), "constant");
+            put("str", safe_pow(c, x), "constant");
             put("str", mul(c, sin(x)), "constant");
         } catch (const std::exception &) {
         }
@@ -705,7 +751,7 @@ void hx_gen(Rng &r, const std::string &tier)
         emit("pair " + vsexp::dump(*mul(x, add(y, z))) + " " + vsexp::dump(*mul(add(z, y), x)), "pair");
         emit("pair " + vsexp::dump(*add(x, y)) + " " + vsexp::dump(*add(x, z)), "pair");
         put("pr", nz, "signed-zero");
-        put("pr", pow(x, nz), "signed-zero");
+        put("pr", safe_pow(x, nz), "signed-zero");
         put("pr", complex_double(std::complex<double>(0.0, -0.1)), "signed-zero");
         put("pr", complex_double(std::complex<double>(-0.0, 2.0)), "signed-zero");
         put("pr", complex_double(std::complex<double>(1.0, -0.0)), "signed-zero");
@@ -735,7 +781,7 @@ static RCP<const Basic> piecewise_from_seed(uint64_t seed)
     if (seed % 7 == 0) {
         PiecewiseVec pv;
         pv.push_back({x, Lt(x, y)});
-        pv.push_back({pow(y, integer(2)), Le(y, z)});
+        pv.push_back({safe_pow(y, integer(2)), Le(y, z)});
         pv.push_back({z, boolTrue});
         return piecewise(std::move(pv));
     }
